@@ -3,9 +3,9 @@ import z3
 from pyvc.sorts import V, Val, VNONE, vbool, vint, fresh, Str, Int
 
 RUN_FRAME = ["interpreter.stack._stack[]", "interpreter.memory[]", "interpreter.module_body._list[]", "interpreter._var_counter",
-             "interpreter._opcodes", "@list.items", "@ast.lineno", "@iterator.pos"]
+             "interpreter._opcodes", "@list.items:nodeowned", "@ast.lineno", "@iterator.pos"]
 STEP_FRAME = ["self.stack._stack[]", "self.memory[]", "self.module_body._list[]", "self._var_counter", "self._opcodes", "self.stack.opcode",
-              "self._module", "@list.items", "@ast.lineno", "@ast.col_offset", "@iterator.pos"]
+              "self._module", "@list.items:nodeowned", "@ast.lineno", "@ast.col_offset", "@iterator.pos"]
 ERR = ["ValueError", "IndexError", "KeyError", "NotImplementedError", "TypeError", "AttributeError"]
 
 
@@ -56,7 +56,7 @@ def register(K):
                         "implies(old(self._module) is not None, result is old(self._module))"],
                logs=[("to_ast", ["self"])])
     K.contract("fickle.Interpreter.interpret", params="pickled: fickle.Pickled", returns="val", may_raise=ERR, exact_raises=False,
-               modifies=["@list.items", "@ast.lineno", "@ast.col_offset", "@iterator.pos"], ensures=["result is not None"])
+               modifies=["@list.items:nodeowned", "@ast.lineno", "@ast.col_offset", "@iterator.pos"], ensures=["result is not None"])
 
     @K.spec("module_has_whole_body")
     def module_has_whole_body(eng, st, module, body):
@@ -87,13 +87,13 @@ def register(K):
     K.contract("tracing.Trace.run", params="self: tracing.Trace", returns="val",
                modifies=["self.interpreter.stack._stack[]", "self.interpreter.memory[]", "self.interpreter.module_body._list[]",
                          "self.interpreter._var_counter", "self.interpreter._opcodes", "self.interpreter.stack.opcode",
-                         "self.interpreter._module", "@list.items", "@ast.lineno", "@ast.col_offset", "@iterator.pos"],
+                         "self.interpreter._module", "@list.items:nodeowned", "@ast.lineno", "@ast.col_offset", "@iterator.pos"],
                may_raise=ERR, exact_raises=False,
                ensures=["result is self.interpreter._module", "result is not None"],
                loops={0: dict(invariant=["self.interpreter is old(self.interpreter)"],
                               modifies=["self.interpreter.stack._stack[]", "self.interpreter.memory[]", "self.interpreter.module_body._list[]",
                                         "self.interpreter._var_counter", "self.interpreter._opcodes", "self.interpreter.stack.opcode",
-                                        "self.interpreter._module", "@list.items", "@ast.lineno", "@ast.col_offset", "@iterator.pos"]),
+                                        "self.interpreter._module", "@list.items:nodeowned", "@ast.lineno", "@ast.col_offset", "@iterator.pos"]),
                       1: dict(invariant=[], modifies=[]), 2: dict(invariant=[], modifies=[]), 3: dict(invariant=[], modifies=[]),
                       4: dict(invariant=[], modifies=[]), 5: dict(invariant=[], modifies=[])})
 
